@@ -42,6 +42,11 @@ class Rule:
     props: tuple[str, ...]
     run: Callable[["Checker"], None]
     doc: str = ""
+    # further properties that only some obligations of the rule bear on: property -> substrings of obligation titles
+    extra: dict[str, tuple[str, ...]] = field(default_factory=dict)
+
+    def applies(self, prop: str) -> bool:
+        return prop in self.props or prop in self.extra
 
 
 class Checker:
@@ -49,6 +54,7 @@ class Checker:
 
     def __init__(self, prg: Optional[Program] = None) -> None:
         self.prg = prg or Program()
+        self.prop: Optional[str] = None
         self.summaries = SummaryTable(self.prg)
         self.obs: list[Ob] = []
         self._interps: dict[tuple, Interp] = {}
@@ -84,6 +90,9 @@ class Checker:
         else:
             fshort, loc = func.short, func.loc(node)
         ob = Ob(rule or self.current_rule.rid, fshort, sig, bool(ok), loc, detail, reason, nontrivial, self.current_rule.props)
+        cur = self.current_rule
+        if self.prop is not None and self.prop not in cur.props and not any(part in sig for part in cur.extra.get(self.prop, ())):
+            return ob  # this obligation of the rule does not bear on the property being decided
         self.obs.append(ob)
         return ob
 
